@@ -138,9 +138,9 @@ func genJSON(r *kit.Rand, id string, noCR bool) *payload {
 	g := &jgen{r: r, allow: prof, dens: kit.Pick(r, []int{15, 50, 100}), used: map[string]bool{}, feat: map[string]bool{}}
 	shape := "small"
 	switch x := r.Intn(100); {
-	case x < 6:
+	case x < 5:
 		shape = "deep"
-	case x < 9:
+	case x < 7:
 		shape = "large"
 	}
 	g.gap()
@@ -179,7 +179,7 @@ func genJSON(r *kit.Rand, id string, noCR bool) *payload {
 			}
 		}
 	case "large":
-		n := r.Range(20_000, 200_000)
+		n := r.Range(6_000, 70_000)
 		g.tok("[")
 		g.gap()
 		g.tok(`"` + strings.Repeat(kit.Pick(r, []string{"x", "\u00e9", "\u2028", `\n`, "data: "}), n/4) + `"`)
@@ -214,8 +214,8 @@ func genJSON(r *kit.Rand, id string, noCR bool) *payload {
 func genBinary(r *kit.Rand, seq uint64) *payload {
 	n := r.Range(0, 200)
 	shape := "binary"
-	if r.Chance(1, 25) {
-		n = r.Range(20_000, 150_000)
+	if r.Chance(1, 40) {
+		n = r.Range(6_000, 70_000)
 		shape = "binary_large"
 	}
 	b := make([]byte, 8, 8+n)
